@@ -1,7 +1,9 @@
 """Kind/level agreement of diagnostics (shared by C07.4c, C13.1, C14): a diagnostic has level Error iff it is an
 Error kind; lint levels only ever move to Allowed."""
 from mirlib import AnchorMissing, path_matches, op_place
-from helpers import aggregates, enum_switches, edge_region, field_accesses, origin_calls
+import re
+
+from helpers import aggregates, enum_switches, edge_region, field_accesses, origin_calls, vexpr
 
 DL = 'slicec::diagnostics::diagnostic::DiagnosticLevel'
 DK = 'slicec::diagnostics::diagnostic::DiagnosticKind'
@@ -68,7 +70,8 @@ def r_level_writers(r, prog):
                     if rv['k'] == 'agg' and path_matches(rv.get('adt'), DL):
                         vals.append(rv['v'])
                     else:
-                        vals.append('?')
+                        m = re.match(r'^DiagnosticLevel::(\w+)\{\}$', vexpr(upd, rv.get('a')) if rv['k'] == 'use' else '')
+                        vals.append(m.group(1) if m else '?')
             if vals and all(v == 'Allowed' for v in vals):
                 r.ok('into_updated: level := Allowed inside the Lint arm', acc['span'])
             else:
